@@ -9,6 +9,7 @@ import (
 	"path/filepath"
 	"strings"
 	"sync"
+	"sync/atomic"
 	"time"
 )
 
@@ -51,6 +52,8 @@ func (o *Obligation) Script() string {
 	b.WriteString("(assert (not " + o.Goal + "))\n(check-sat)\n(get-model)\n")
 	return b.String()
 }
+
+var smtSeq int64
 
 type solveOut struct {
 	solver string
@@ -100,7 +103,7 @@ func Discharge(o *Obligation, dir string, timeoutS int, all bool) {
 	if o.Cover && timeoutS > 3 {
 		timeoutS = 3 // vacuity guards only need a quick sat / unsat; unknown is not a failure
 	}
-	file := filepath.Join(dir, mangle(o.Name)+".smt2")
+	file := filepath.Join(dir, fmt.Sprintf("%s_%d.smt2", mangle(o.Name), atomic.AddInt64(&smtSeq, 1)))
 	os.WriteFile(file, []byte(o.Script()), 0o644)
 	ctx, cancel := context.WithCancel(context.Background())
 	defer cancel()
